@@ -719,6 +719,8 @@ pub fn from_utf8_trusting(v: &[u8]) -> Result<&str, std::str::Utf8Error> {
 #[kani::proof]
 #[kani::unwind(8)]
 #[kani::stub(std::str::from_utf8, from_utf8_trusting)]
+#[kani::stub(<crate::message::rpc::PartialReply as crate::message::ReadXml>::read_xml, stub_partial_read_xml)]
+#[kani::stub(<crate::message::rpc::operation::Opaque as crate::message::ReadXml>::read_xml, stub_opaque_by_tape)]
 fn c05_recv_step_two_arrivals() {
     recv_step(2)
 }
@@ -727,6 +729,8 @@ fn c05_recv_step_two_arrivals() {
 #[kani::proof]
 #[kani::unwind(8)]
 #[kani::stub(std::str::from_utf8, from_utf8_trusting)]
+#[kani::stub(<crate::message::rpc::PartialReply as crate::message::ReadXml>::read_xml, stub_partial_read_xml)]
+#[kani::stub(<crate::message::rpc::operation::Opaque as crate::message::ReadXml>::read_xml, stub_opaque_by_tape)]
 fn c05_recv_step_one_arrival() {
     recv_step(1)
 }
@@ -801,7 +805,8 @@ fn c12_negotiation_and_framing() {
     let client = ClientHello::default().capabilities();
     let c10 = client.iter().any(|c| matches!(c, Capability::Base(Base::V1_0)));
     let c11 = client.iter().any(|c| matches!(c, Capability::Base(Base::V1_1)));
-    quick_xml::writer::set_emit_bytes(true);
+    // (the writer model does not emit the element bytes here - only what `to_xml` itself adds
+    // around them is needed to tell the framing style)
     let req = rpc::Request::new(vr::message_id(1), CloseSession);
     let wire = req.to_xml();
     let (eom, chunked) = match &wire {
@@ -873,6 +878,8 @@ fn c18_survivor_completes(requests: &Requests, rx: &Arc<Mutex<MemRx>>) {
 #[kani::proof]
 #[kani::unwind(8)]
 #[kani::stub(std::str::from_utf8, from_utf8_trusting)]
+#[kani::stub(<crate::message::rpc::PartialReply as crate::message::ReadXml>::read_xml, stub_partial_read_xml)]
+#[kani::stub(<crate::message::rpc::operation::Opaque as crate::message::ReadXml>::read_xml, stub_opaque_by_tape)]
 fn c18_drop_while_waiting_for_transport() {
     let (requests, rx) = c18_setup();
     let polled: bool = kani::any();
@@ -897,6 +904,8 @@ fn c18_drop_while_waiting_for_transport() {
 #[kani::proof]
 #[kani::unwind(8)]
 #[kani::stub(std::str::from_utf8, from_utf8_trusting)]
+#[kani::stub(<crate::message::rpc::PartialReply as crate::message::ReadXml>::read_xml, stub_partial_read_xml)]
+#[kani::stub(<crate::message::rpc::operation::Opaque as crate::message::ReadXml>::read_xml, stub_opaque_by_tape)]
 fn c18_drop_at_map_lock_with_reply_in_hand() {
     let (requests, rx) = c18_setup();
     {
@@ -923,6 +932,8 @@ fn c18_drop_at_map_lock_with_reply_in_hand() {
 #[kani::proof]
 #[kani::unwind(8)]
 #[kani::stub(std::str::from_utf8, from_utf8_trusting)]
+#[kani::stub(<crate::message::rpc::PartialReply as crate::message::ReadXml>::read_xml, stub_partial_read_xml)]
+#[kani::stub(<crate::message::rpc::operation::Opaque as crate::message::ReadXml>::read_xml, stub_opaque_by_tape)]
 fn c05_recv_after_lock_handover() {
     tape::set_tables(&SESSION_NAMES, &SESSION_TEXTS, &SESSION_ATTRS);
     tape::register(2, reply_tape(0));
@@ -949,4 +960,39 @@ fn c05_recv_after_lock_handover() {
     }
     kani::cover!(matches!(r, Some(Ok(_))), "completes with the parked reply");
     std::mem::forget((r, requests, rx));
+}
+
+// -------------------------------------------------------------------------------------------------
+// Summaries of parsing steps, for harnesses whose subject is the session bookkeeping (the
+// parsers themselves are the subject of C08 / C12 / C14).  Kani cannot stub generic trait
+// methods (`ServerMsg::recv`, `from_xml`, `TryFrom`), so the summaries sit on the two
+// non-generic readers underneath them.
+
+/// Summary of `<PartialReply as ReadXml>::read_xml` (first parse phase): the partial reply whose
+/// message-id is the one the tape declares (attribute 0 of the tape) and whose buffer is the
+/// reader's input, without walking the events.
+pub fn stub_partial_read_xml(reader: &mut quick_xml::NsReader<&[u8]>, _start: &quick_xml::events::BytesStart<'_>) -> Result<rpc::PartialReply, ReadError> {
+    let input: &[u8] = reader.get_ref();
+    let slot = if input.is_empty() { 0 } else { input[0] };
+    let t = tape::registered(slot);
+    let id = match t.attrs[0].val {
+        1 => 1,
+        2 => 2,
+        _ => 9,
+    };
+    Ok(vr::partial_reply(id, slot))
+}
+
+/// Summary of `Opaque::read_xml`: consumes `<data>`, returns the data text of the tape
+/// ("d1" / "d2" / "d9" by the tape's message-id).
+pub fn stub_opaque_by_tape(reader: &mut quick_xml::NsReader<&[u8]>, start: &quick_xml::events::BytesStart<'_>) -> Result<Opaque, ReadError> {
+    let input: &[u8] = reader.get_ref();
+    let slot = if input.is_empty() { 0 } else { input[0] };
+    let t = tape::registered(slot);
+    let _ = reader.read_to_end(start.to_end().name())?;
+    Ok(Opaque::from(match t.attrs[0].val {
+        1 => "d1",
+        2 => "d2",
+        _ => "d9",
+    }))
 }
